@@ -119,7 +119,7 @@ def per_test_calls(proc):
         if name == "endtest":
             done.add(kv["test"])
         elif name == "match" and kv["test"] not in done:
-            res.setdefault(kv["test"], []).append((kv["api"], kv["h"], kv["pre"]))
+            res.setdefault(kv["test"], []).append((kv["api"], kv["h"], kv["pre"], kv.get("form", "")))
     return res
 
 
